@@ -352,8 +352,21 @@ static void acc_print_item(const cbor_item_t* it, size_t n) {
   print_hex(it->data, n);
 }
 
-/* 0: unknown function; 1: returned a value (in *ret); 2: void */
-static int acc_call(const char* fn, cbor_item_t* it, uint64_t v, uint64_t* ret) {
+/* 0: unknown function; 1: returned a value (in *ret); 2: void.  float / double results and arguments travel as IEEE-754 bit patterns;
+   hb (hn bytes, from the installed allocator) is the buffer handed to the handle setters, v their length argument */
+static int acc_call(const char* fn, cbor_item_t* it, uint64_t v, uint64_t* ret, unsigned char* hb) {
+#define GF(name) if (!strcmp(fn, #name)) { *ret = f2u(name(it)); return 1; }
+#define GD(name) if (!strcmp(fn, #name)) { *ret = d2u(name(it)); return 1; }
+#define SF(name) if (!strcmp(fn, #name)) { uint32_t u = (uint32_t)v; float f; memcpy(&f, &u, 4); name(it, f); return 2; }
+#define SD(name) if (!strcmp(fn, #name)) { double d; memcpy(&d, &v, 8); name(it, d); return 2; }
+  GF(cbor_float_get_float2) GF(cbor_float_get_float4) GD(cbor_float_get_float8) GD(cbor_float_get_float)
+  SF(cbor_set_float2) SF(cbor_set_float4) SD(cbor_set_float8)
+  if (!strcmp(fn, "cbor_string_set_handle")) { if (!hb) return 0; cbor_string_set_handle(it, hb, (size_t)v); return 2; }
+  if (!strcmp(fn, "cbor_bytestring_set_handle")) { if (!hb) return 0; cbor_bytestring_set_handle(it, hb, (size_t)v); return 2; }
+#undef GF
+#undef GD
+#undef SF
+#undef SD
 #define G(name) if (!strcmp(fn, #name)) { *ret = (uint64_t)name(it); return 1; }
 #define S(name, T) if (!strcmp(fn, #name)) { name(it, (T)v); return 2; }
 #define M(name) if (!strcmp(fn, #name)) { name(it); return 2; }
@@ -379,7 +392,7 @@ static int acc_call(const char* fn, cbor_item_t* it, uint64_t v, uint64_t* ret) 
 static volatile int acc_in_child = 0;
 void __asan_on_error(void) { if (acc_in_child) _exit(5); }
 
-static int op_acc(char** w) {
+static int op_acc(char** w, int argc) {
   const char* fn = w[1];
   unsigned type = (unsigned)strtoul(w[2], 0, 10);
   uint64_t a = strtoull(w[3], 0, 10), b = strtoull(w[4], 0, 10), c = strtoull(w[5], 0, 10), rc = strtoull(w[6], 0, 10);
@@ -388,6 +401,19 @@ static int op_acc(char** w) {
   unsigned char* d = malloc(n ? n : 1);
   hex_decode(w[7], d, n);
   cbor_item_t* it = acc_item(type, a, b, c, rc, d, n);
+  /* 10th word: the bytes of the buffer handed to cbor_string_set_handle / cbor_bytestring_set_handle; exactly that many bytes are
+     requested from the installed allocator (as the library's own callers do), so ASan sees any read beyond them */
+  extern _cbor_malloc_t _cbor_malloc; extern _cbor_free_t _cbor_free;
+  unsigned char *hblock = NULL, *hb = NULL; size_t hn = 0;
+  if (argc == 10) {
+    hn = !strcmp(w[9], "-") ? 0 : strlen(w[9]) / 2;
+    h_alloc_forbid(0);                       /* the buffer is the caller's; the setter itself must still not allocate */
+    hblock = _cbor_malloc(hn ? hn : 1);
+    h_alloc_forbid(1);
+    if (!hblock) { printf("alloc-failed\n"); free(it); free(d); return 1; }
+    hb = hn ? hblock : hblock + 1;           /* no bytes: the one-past pointer, any read is an overflow */
+    hex_decode(w[9], hb, hn);
+  }
   int handled = 1, status = 0;
   fflush(stdout);
   pid_t pid = fork();
@@ -395,23 +421,24 @@ static int op_acc(char** w) {
     struct rlimit nocore = {0, 0}; setrlimit(RLIMIT_CORE, &nocore);
     int fd = open("/dev/null", O_WRONLY); if (fd >= 0) dup2(fd, 2);
     acc_in_child = 1;
-    _exit(acc_call(fn, it, v, &ret) == 0 ? 3 : 0);
+    _exit(acc_call(fn, it, v, &ret, hb) == 0 ? 3 : 0);
   }
   if (pid < 0 || waitpid(pid, &status, 0) < 0) printf("fork-failed\n");
   else if (WIFEXITED(status) && WEXITSTATUS(status) == 3) handled = 0;          /* unknown function: bad-op */
   else if (!(WIFEXITED(status) && WEXITSTATUS(status) == 0)) printf("ok=0\n");
   else {
-    int k = acc_call(fn, it, v, &ret);
+    int k = acc_call(fn, it, v, &ret, hb);
     if (k == 1) printf("%" PRIu64, ret); else printf("-");
-    acc_print_item(it, n);
+    acc_print_item(it, it->data == hb && hb ? hn : n);      /* after a handle setter: the bytes item->data now points to */
     printf(" ok=1\n");
   }
+  if (hblock) _cbor_free(hblock);
   free(it); free(d);
   return handled;
 }
 
 int gen_op(int argc, char** w) {
-  if (argc == 9 && !strcmp(w[0], "ACC")) return op_acc(w);
+  if ((argc == 9 || argc == 10) && !strcmp(w[0], "ACC")) return op_acc(w, argc);
   if (argc == 2 && !strcmp(w[0], "F32ALL")) { op_f32all((unsigned)strtoul(w[1], 0, 10)); return 1; }
   if (argc == 3 && !strcmp(w[0], "UTF8ALL")) { op_utf8all(strtoull(w[1], 0, 10), w[2]); return 1; }
   if (argc == 2 && !strcmp(w[0], "SD")) { op_sd(w[1]); return 1; }
